@@ -170,7 +170,8 @@ impl RefNorm {
 
 #[derive(Clone, Debug, PartialEq, Eq)]
 pub struct ScenShape {
-    pub in_rule: bool,
+    /// 0: directly in the feature; 1 / 2: in the feature's first / second rule
+    pub rule: usize,
     pub attempts: usize,
     /// events per attempt: 2 = Started, Finished; 3 = with one step result
     pub events: usize,
@@ -221,23 +222,13 @@ pub fn build_poset(shape: &Shape) -> Poset {
     // features for real gherkin sources
     let mut specs = Vec::new();
     for f in &shape.feats {
-        let top: Vec<ScenSpec> = f
-            .iter()
-            .filter(|s| !s.in_rule)
-            .map(|_| ScenSpec { tags: vec![], steps: vec![StepKind::Matched] })
-            .collect();
-        let ruled: Vec<ScenSpec> = f
-            .iter()
-            .filter(|s| s.in_rule)
-            .map(|_| ScenSpec { tags: vec![], steps: vec![StepKind::Matched] })
-            .collect();
+        let mk = |k: usize| -> Vec<ScenSpec> {
+            f.iter().filter(|s| s.rule == k).map(|_| ScenSpec { tags: vec![], steps: vec![StepKind::Matched] }).collect()
+        };
+        let nrules = f.iter().map(|s| s.rule).max().unwrap_or(0);
         specs.push(FeatSpec {
-            scenarios: top,
-            rules: if ruled.is_empty() {
-                vec![]
-            } else {
-                vec![RuleSpec { tags: vec![], bg: vec![], scenarios: ruled }]
-            },
+            scenarios: mk(0),
+            rules: (1..=nrules).map(|k| RuleSpec { tags: vec![], bg: vec![], scenarios: mk(k) }).collect(),
             ..Default::default()
         });
     }
@@ -273,22 +264,21 @@ pub fn build_poset(shape: &Shape) -> Poset {
         let fname = format!("F{}", fi + 1);
         let fs = push(Ev::FeatStarted(fname.clone()), vec![0], &mut elems, &mut preds);
         let mut feat_last = vec![fs];
-        let has_rule = f.iter().any(|s| s.in_rule);
-        let rname = format!("{fname}.R1");
-        let rs = if has_rule {
-            Some(push(Ev::RuleStarted(fname.clone(), rname.clone()), vec![fs], &mut elems, &mut preds))
-        } else {
-            None
-        };
-        let mut rule_last = rs.into_iter().collect::<Vec<_>>();
-        let (mut ti, mut ri) = (0, 0);
+        let nrules = f.iter().map(|s| s.rule).max().unwrap_or(0);
+        let rnames: Vec<String> = (1..=nrules).map(|k| format!("{fname}.R{k}")).collect();
+        let rstart: Vec<usize> = rnames
+            .iter()
+            .map(|rn| push(Ev::RuleStarted(fname.clone(), rn.clone()), vec![fs], &mut elems, &mut preds))
+            .collect();
+        let mut rule_last: Vec<Vec<usize>> = rstart.iter().map(|r| vec![*r]).collect();
+        let mut counters = vec![0usize; nrules + 1];
         for s in f {
-            let (sname, rule, start_pred) = if s.in_rule {
-                ri += 1;
-                (format!("{rname}.S{ri}"), Some(rname.as_str()), rs.unwrap())
+            counters[s.rule] += 1;
+            let n = counters[s.rule];
+            let (sname, rule, start_pred) = if s.rule > 0 {
+                (format!("{}.S{n}", rnames[s.rule - 1]), Some(rnames[s.rule - 1].as_str()), rstart[s.rule - 1])
             } else {
-                ti += 1;
-                (format!("{fname}.S{ti}"), None, fs)
+                (format!("{fname}.S{n}"), None, fs)
             };
             let step_text = format!("step {sname} 1");
             let mut prev = start_pred;
@@ -309,14 +299,14 @@ pub fn build_poset(shape: &Shape) -> Poset {
                     prev = push(sc(&fname, rule, &sname, retries, e), vec![prev], &mut elems, &mut preds);
                 }
             }
-            if s.in_rule {
-                rule_last.push(prev);
+            if s.rule > 0 {
+                rule_last[s.rule - 1].push(prev);
             } else {
                 feat_last.push(prev);
             }
         }
-        if has_rule {
-            let rf = push(Ev::RuleFinished(fname.clone(), rname.clone()), rule_last, &mut elems, &mut preds);
+        for (k, rn) in rnames.iter().enumerate() {
+            let rf = push(Ev::RuleFinished(fname.clone(), rn.clone()), rule_last[k].clone(), &mut elems, &mut preds);
             feat_last.push(rf);
         }
         let ff = push(Ev::FeatFinished(fname.clone()), feat_last, &mut elems, &mut preds);
@@ -353,10 +343,10 @@ pub fn build_poset(shape: &Shape) -> Poset {
 /// All shapes whose total event weight is within `max_weight`.
 pub fn shapes(max_weight: usize, max_feats: usize, max_scen: usize) -> Vec<Shape> {
     let mut scen_opts = Vec::new();
-    for in_rule in [false, true] {
+    for rule in [0usize, 1, 2] {
         for attempts in 1..=2 {
             for events in [2usize, 3] {
-                scen_opts.push(ScenShape { in_rule, attempts, events });
+                scen_opts.push(ScenShape { rule, attempts, events });
             }
         }
     }
@@ -379,10 +369,14 @@ pub fn shapes(max_weight: usize, max_feats: usize, max_scen: usize) -> Vec<Shape
         out
     }
     let weight = |f: &Vec<ScenShape>| -> usize {
-        2 + if f.iter().any(|s| s.in_rule) { 2 } else { 0 }
+        2 + 2 * f.iter().map(|s| s.rule).max().unwrap_or(0)
             + f.iter().map(|s| s.attempts * s.events).sum::<usize>()
     };
-    let fl = feat_lists(&scen_opts, max_scen);
+    // a second rule only next to a first one (no empty rules)
+    let fl: Vec<Vec<ScenShape>> = feat_lists(&scen_opts, max_scen)
+        .into_iter()
+        .filter(|f| !f.iter().any(|s| s.rule == 2) || f.iter().any(|s| s.rule == 1))
+        .collect();
     let mut out = Vec::new();
     for a in &fl {
         if weight(a) <= max_weight {
